@@ -114,7 +114,9 @@ UserScaleOK(r, t, m, e, ds, X) ==
         \* known finding: 2^j itself is rounded to 6 significant digits in the header
         \/ K_DEC6 \in X /\ LET tt == r.scaleE - ds.se IN tt >= 17 /\ tt <= 24 /\ Abs(ds.sm - P2(tt)) <= P2(tt - 17)
 
-HeaderOK(h, r, t, g, boExp, dsPerFile, X) ==
+\* K_NEGUNS: the data sets that write_data refuses (no positive value, some negative value, unsigned type, automatic scale)
+NegSet(m) == SeqMax(m) <= 0 /\ SeqMin(m) < 0
+HeaderOK(h, hi, r, t, g, boExp, dsPerFile, X) ==
   LET nv == NumVox(g) ex == img.exam fpo == Rev3(FirstPixelOffset(g)) vx == Rev3(g.vox) IN
   /\ h.present
   /\ h.bo = boExp /\ h.nf = NumberFormat(t) /\ h.bpp = Bytes(t)
@@ -122,8 +124,11 @@ HeaderOK(h, r, t, g, boExp, dsPerFile, X) ==
   /\ h.labels = "xyz" /\ h.msize = Rev3(g.size)
   /\ \A a \in 1..3 : QNear(h.vox[a], h.voxR[a], vx[a], IF K_DEC6 \in X THEN Dec6Tol(vx[a]) ELSE 0)
   /\ h.hasFpo /\ \A a \in 1..3 : QNear(h.fpo[a], h.fpoR[a], fpo[a], IF K_DEC6 \in X THEN Dec6Tol(fpo[a]) ELSE 0)
-  \* the data file has exactly the length the header announces (known finding K_NEGUNS: shorter)
-  /\ h.dlen = dsPerFile * nv * h.bpp \/ (K_NEGUNS \in X /\ h.dlen < dsPerFile * nv * h.bpp)
+  \* the data file has exactly the length the header announces
+  \* (known finding K_NEGUNS: shorter, if a refused data set belongs to this file)
+  /\ \/ h.dlen = dsPerFile * nv * h.bpp
+     \/ /\ K_NEGUNS \in X /\ h.dlen < dsPerFile * nv * h.bpp
+        /\ IF img.fmt = "Multi" THEN NegSet(img.m[hi]) ELSE \E d \in 1..img.nd : NegSet(img.m[d])
   /\ h.mod = (IF ex.mod = "Unknown" THEN "-" ELSE ex.mod)
   /\ h.typeOfData = (IF ex.mod = "NM" THEN "Tomographic" ELSE "PET")
 
@@ -138,13 +143,19 @@ W_format(r) == LET t == r.type IN
   /\ r.boEff = BoExp(r) /\ r.nfEff = NumberFormat(t) /\ r.bytesEff = Bytes(t)
 W_headers(r, X) ==
   /\ Len(r.hdrs) = NumHdrs
-  /\ \A hi \in 1..NumHdrs : HeaderOK(r.hdrs[hi], r, r.type, G(img.geo[1]), BoExp(r), DsPerFile, X)
+  /\ \A hi \in 1..NumHdrs : HeaderOK(r.hdrs[hi], hi, r, r.type, G(img.geo[1]), BoExp(r), DsPerFile, X)
+\* data sets back to back (K_NEGUNS: a data set after a refused one starts earlier, where the writer actually was)
 W_layout(r, X) ==
   /\ Len(r.ds) >= img.nd /\ (img.kind # "single" => Len(r.ds) = img.nd)
-  /\ K_NEGUNS \in X \/ \A d \in 1..img.nd : r.ds[d].off = (IF img.fmt = "Multi" THEN 0 ELSE (d - 1) * NumVox(G(img.geo[1])) * Bytes(r.type))
-\* (K_NEGUNS: the data file is incomplete, its content is not examined)
-W_data(r, X) == K_NEGUNS \in X \/ \A d \in 1..img.nd : DataSetOK(r.type, img.m[d], img.vexp, img.k, r.ds[d], img.bits[d], X)
-W_userscale(r, X) == K_NEGUNS \in X \/ \A d \in 1..img.nd : UserScaleOK(r, r.type, img.m[d], img.vexp, r.ds[d], X)
+  /\ \A d \in 1..img.nd :
+       LET expected == IF img.fmt = "Multi" THEN 0 ELSE (d - 1) * NumVox(G(img.geo[1])) * Bytes(r.type) IN
+       \/ r.ds[d].off = expected
+       \/ K_NEGUNS \in X /\ r.ds[d].off >= 0 /\ r.ds[d].off < expected /\ \E dd \in 1..(d - 1) : NegSet(img.m[dd])
+\* (K_NEGUNS: the content of a refused data set is not examined; the others are)
+W_data(r, X) == \A d \in 1..img.nd :
+  \/ K_NEGUNS \in X /\ NegSet(img.m[d])
+  \/ DataSetOK(r.type, img.m[d], img.vexp, img.k, r.ds[d], img.bits[d], X)
+W_userscale(r, X) == \A d \in 1..img.nd : UserScaleOK(r, r.type, img.m[d], img.vexp, r.ds[d], X)
 WriteOK(r, X) == W_status(r) /\ W_format(r) /\ W_headers(r, X) /\ W_layout(r, X) /\ W_data(r, X) /\ W_userscale(r, X)
 
 (* ----------------------------------------------------------------- Read *)
@@ -197,11 +208,12 @@ NmOffRead(r, d) ==
   /\ Len(r.vals[d]) = Len(img.m[d])
   /\ (dd.sm = d1.sm /\ dd.se = d1.se /\ Len(d1.dec) = Len(r.vals[d])) =>
         \A i \in 1..Len(r.vals[d]) : Abs(r.vals[d][i] - d1.dec[i]) <= FloatSlack(d1.dec[i])
-\* (K_NEGUNS: a container whose data file lacks a data set can still be read, with later data sets in the place of
-\* the missing one: the values are not examined)
-R_values(r, X) == K_NEGUNS \in X \/ \A d \in 1..img.nd :
-  IF K_NMOFF \in X /\ d >= 2 THEN NmOffRead(r, d)
-  ELSE ValuesReadOK(wr.type, img.m[d], img.k, img.vexp, wr.ds[d], r.vals[d], r.bits[d], img.bits[d], X)
+\* (K_NEGUNS: a container whose data file lacks a data set can still be read, with a later data set in the place of
+\* the refused one: the values of the refused data set are not examined, those of the others are)
+R_values(r, X) == \A d \in 1..img.nd :
+  \/ K_NEGUNS \in X /\ NegSet(img.m[d]) /\ Len(r.vals[d]) = Len(img.m[d])
+  \/ IF K_NMOFF \in X /\ d >= 2 THEN NmOffRead(r, d)
+     ELSE ValuesReadOK(wr.type, img.m[d], img.k, img.vexp, wr.ds[d], r.vals[d], r.bits[d], img.bits[d], X)
 R_exam(r, X) == \/ ExamOf(r.exam) = ExamExpected
                 \* known finding: rotation right / left read back as other
                 \/ K_ROT \in X /\ ExamExpected.rot \in { 2, 3 } /\ ExamOf(r.exam) = [ExamExpected EXCEPT !.rot = 4]
@@ -242,7 +254,7 @@ Sig(f, r) ==
             WScaleM(r) = 0 /\ \E d \in 1..img.nd : ScaleUnderflows(WType(r), img.m[d], img.vexp)
        [] f = K_NEGUNS ->        \* unsigned type, automatic scale, a data set without positive values but with negative ones
             /\ WType(r) \in { "UCHAR", "USHORT", "UINT", "ULONG" } /\ WScaleM(r) = 0
-            /\ \E d \in 1..img.nd : SeqMax(img.m[d]) <= 0 /\ SeqMin(img.m[d]) < 0
+            /\ \E d \in 1..img.nd : NegSet(img.m[d])
        [] f = K_ROT -> r.e = "Read" /\ img.exam.rot \in { 2, 3 }        \* patient rotation right / left
        [] f = K_NMOFF ->         \* modality NM, dynamic or parametric image in one Interfile file, more than one data set
             r.e \in { "Read", "Trunc" } /\ img.exam.mod = "NM" /\ img.kind # "single" /\ img.fmt = "Interfile" /\ img.nd >= 2
